@@ -18,7 +18,7 @@ props.prop(
     not_decided='histories (that the pairs are executed in every order), label disambiguation, message order',
     assumptions=['subset groups are created only through DataCollection.new_subset_group'])
 props.also('C06',
-           'that every registered DataCollection protocol that restores groups registers them to the hub (all loader versions, through whatever chain of loaders); that the hub flushes only a detached snapshot (shared with C07.b)')
+           'that every registered DataCollection protocol that restores groups registers them to the hub (all loader versions, through whatever chain of loaders); that the hub flushes only a detached snapshot (shared with C07.b); that the membership guard of the dataset-added handler compares the dataset itself, not one of its attributes; that what the filters of the group\'s subscriptions read is set by the constructor or register_to_hub')
 
 SG = 'glue.core.subset_group.SubsetGroup'
 GS = 'glue.core.subset_group.GroupedSubset'
